@@ -183,7 +183,7 @@ def e2e(case):
     if times:
         tl = times[-1]
         for obj in [ps] + nets:
-            parks = list(getattr(obj, "ev_parks", []) or [])
+            parks = [b.ev_park for b in obj.buses if getattr(b, "ev_park", None) is not None]      # the parks on the object's own load points
             if not parks or "EV_Interruption" not in obj.history:
                 continue
             # EV_Interruption / EV_Duration as the model defines them (C10.evInterruption_append: every park counts), computed by the
@@ -235,6 +235,8 @@ def gen_mc(rng, n):
             nb = len(fd["parent"])
             fd["ev"] = {str(k): {"hours": list(range(24)), "table": [str(rng.choice([2, 3, 5])) for _ in range(24)], "v2g": rng.random() < 0.6}
                         for k in rng.sample(range(nb), rng.choice([1, 1, min(2, nb)]))}
+        if spec.get("mg") and j % 2 == 1:     # an EV park on a load point inside the microgrid as well
+            spec["mg"]["ev"] = {str(rng.randrange(spec["mg"].get("n", 2))): {"hours": list(range(24)), "table": [str(rng.choice([2, 3, 5])) for _ in range(24)], "v2g": True}}
         if j % 3 == 0:                   # targeted: one EV park, on the first load point of a feeder with at least two (never the last bus)
             fd = spec["feeders"][0]
             if len(fd["parent"]) < 2:
@@ -256,6 +258,14 @@ def run(res):
                 "with injected line and transformer faults, logged histories and CSV files vs definitions; Monte Carlo runs (3-4 iterations, EV parks, microgrids): every saved Monte Carlo file vs the numbers each iteration returned in memory. non-trivial = distinct signature of "
                 "(stack>0, interruption in progress, zero customers, index kinds)")
     cases = acct.gen_kernel(rng, nk) + acct.gen_e2e(rng, ne) + gen_mc(rng, 3 if res.tier == "quick" else 40)
+    q = 0
+    for c in cases:
+        # every other end-to-end system with a microgrid has an EV park on a load point inside the microgrid as well
+        mg = (c.get("spec") or {}).get("mg") if c.get("kind") not in ("mc",) else None
+        if mg:
+            q += 1
+            if q % 2 == 1:
+                mg["ev"] = {str(q % mg.get("n", 2)): {"hours": list(range(24)), "table": [str(2 + (q + h_) % 4) for h_ in range(24)], "v2g": True}}
     run_cases(res, cases, handler)
 
 
